@@ -49,7 +49,8 @@ ASSUMPTIONS["C16"] = [
     "distance of a point to the plane of a hull face is judged with a tolerance proportional to diam/h_f (h_f smallest "
     "height of the face): qhull bounds the distance to its merged facets, not to the triangles of their 'Qt' triangulation",
     "minimality of the sphere is only demanded for general-position sets: Welzl certificate found, exactly d+1 or fewer "
-    "support points with no further point on the boundary, barycentric weights >= 1e-3, not a cospherical/cap set",
+    "support points with no further point on the boundary, barycentric weights >= 1e-3, not a cospherical/cap set, and for "
+    "lattice / explicit / un-jittered template sets no d+2 cospherical points (exhaustive subset test, <= 12 points)",
     "Trimesh.bounds documents that only referenced vertices count; pool meshes have no unreferenced vertices",
 ]
 
@@ -532,6 +533,35 @@ def b_box(case, ctx):
 # spheres
 
 
+def has_cospherical_subset(ps):
+    """d+2 points on a common sphere (or hyperplane): determinant of the lifted rows (p, |p|^2, 1) in unit-box
+    coordinates. Only called for sets with at most 12 distinct points (<= 792 subsets)."""
+    d = ps.d
+    U = (ps.U - (ps.lo + ps.hi) / 2.0) / ps.diam
+    L = np.column_stack((U, (U**2).sum(axis=1), np.ones(len(U))))
+    idx = np.array(list(itertools.combinations(range(len(U)), d + 2)), dtype=np.int64).reshape((-1, d + 2))
+    if len(idx) == 0:
+        return False
+    return bool((np.abs(np.linalg.det(L[idx])) <= 1e-10).any())
+
+
+def general_position_candidate(case, ps):
+    """Sets whose coordinates come from a continuous distribution are in general position with probability one.
+    Integer-lattice, explicit (small integers / dyadic fractions) and un-jittered template meshes routinely have
+    d+2 cospherical points (an isosceles trapezoid is enough): those only count as general position when an
+    exhaustive subset test says so, which is affordable up to 12 distinct points."""
+    if case.get("src") == "mesh":
+        discrete = not case["mesh"].get("jamp")
+    else:
+        kind = case["spec"].get("kind")
+        if kind in ("sphere", "cap"):
+            return False
+        discrete = kind in ("lattice", "lattice_shell", "explicit")
+    if not discrete:
+        return True
+    return len(ps.U) <= 12 and not has_cospherical_subset(ps)
+
+
 def sphere_clauses(ps, center, radius, sigbase, who, general_ok, ctx=None):
     c = np.asarray(center, dtype=np.float64).reshape(-1)
     r = float(radius)
@@ -568,8 +598,7 @@ def b_sphere(case, ctx):
     if not in_generated_domain(ps):
         ctx.note(cls="sphere:skipped_not_spanning")
         return
-    kind = spec_of(case).get("kind") if src != "mesh" else None
-    general_ok = kind not in ("sphere", "cap")
+    general_ok = general_position_candidate(case, ps)
     sigbase = f"C16.sphere|{src}"
     if src == "points":
         c, r = guarded(lambda: tn.minimum_nsphere(P.copy()), "C16.sphere", "points|minimum_nsphere")
